@@ -201,7 +201,11 @@ class Builder:
     if t == 1: return base.Identity()
     if t == 19:
       inner = self.build(x[1])
-      return lambda xs: inner(xs)          # a plain callable operand: not an Operation, takes the inputs only
+      def plain(xs):                       # a plain callable operand: not an Operation, takes the inputs only
+        import gc
+        gc.collect()                       # objects of operands evaluated earlier that nobody holds any more go away now
+        return inner(xs)
+      return plain
     if t == 2:
       a = self.build(x[1])
       if x[2][0] == 16:
@@ -522,6 +526,16 @@ def oracle(spec_t, expr, pop, seed, res=None, determinism=True):
     only_selectors = all(n.startswith('selectors.') for n in names) and names and 'Lambda' not in names
     if only_selectors and news:
       hits.append(('C14/selector-members/%s/new-object' % opk, 'a selector expression returned an object that is not a member of its input'))
+    # x - y / x & y over operands that only return fresh objects: nothing of x's output can be in y's
+    def fresh_mutator(e):
+      e = e[1] if e[0] == 19 else e
+      return e[0] == 0 and e[1][0] == 1
+    if expr[0] in (4, 6) and fresh_mutator(expr[1]) and fresh_mutator(expr[2]) and all(x[0] == 'd' for x in pop):
+      want = len(pop) if expr[0] == 6 else 0
+      if len(res['result']) != want:
+        hits.append(('C14/composition/base.%s/dead-object-id' % ('Difference' if expr[0] == 6 else 'Intersection'),
+                     'x %s y over operands returning only new objects gave %d items instead of %d: ids of objects that no longer exist are compared'
+                     % ('-' if expr[0] == 6 else '&', len(res['result']), want)))
     if expr[0] == 0 and expr[1][0] == 0 and all(x[0] == 'd' for x in pop):
       want = doc_count(expr[1][1], pop)
       if len(res['result']) != want:
@@ -731,6 +745,11 @@ CORPUS = [
      [['d', 0, [('c', [(0, _pd([0, 1, 2]))])], 1.0], ['d', 1, [('c', [(0, _pd([2, 0, 1]))])], 2.0]], 1),
     ('repeat-plain-callable', ('S', [C(1, [E, E, E], False, False, 'x')]), [8, 2, [19, P([0, [5, [0, 1]]])]],
      [['d', 0, [('c', [(0, [])])], 1.0], ['d', 1, [('c', [(2, [])])], 2.0]], 0),
+] + [
+    ('dead-object-ids/%d' % i, ('S', [C(1, [E, E, E, E], False, False, 'x'), C(1, [E, E], False, False, 'y')]),
+     [6 if i % 2 else 4, [19, P([1, [0, NW_ALL]])], P([1, [0, NW_ALL]])],
+     [['d', j, [('c', [(j % 4, [])]), ('c', [(j % 2, [])])], 1.0] for j in range(6)], i)
+    for i in range(40)
 ] + [
     ('permutation-default-where-seeded/%d' % sd, ('S', [_perm(4, 'x'), _perm(3, 'y'), _perm(3, 'z')]), P([2, [3, pk, [1, 1]]]),
      [['d', 0, _pd([0, 1, 2, 3], [0, 1, 2], [2, 1, 0]), 1.0], ['d', 1, _pd([3, 2, 1, 0], [2, 0, 1], [0, 1, 2]), 2.0]], sd)
